@@ -28,7 +28,7 @@ def canon(value: Any) -> str:
         return "{" + ",".join(f"{k}:{v}" for k, v in items) + "}"
     if isinstance(value, (set, frozenset)):
         return "{" + ",".join(sorted(canon(v) for v in value)) + "}"
-    if isinstance(value, (Opaque, Versioned)):
+    if isinstance(value, (Opaque, Versioned, Ambiguous)):
         return f"<{type(value).__name__}:{value.tag}>"
     return f"<{type(value).__name__}>"
 
@@ -49,6 +49,31 @@ class Opaque:
 
     def __repr__(self) -> str:
         return f"<Opaque:{self.tag}>"
+
+
+class _NoTruth:
+    def __bool__(self) -> bool:
+        raise ValueError("The truth value of an elementwise comparison is ambiguous")
+
+
+class Ambiguous:
+    """An array-like value: comparing two of them gives an object that has no truth value (like numpy arrays / pandas frames)."""
+
+    __slots__ = ("tag",)
+
+    def __init__(self, tag: int) -> None:
+        self.tag = tag
+
+    def __eq__(self, other: Any) -> Any:  # type: ignore[override]
+        return _NoTruth()
+
+    def __ne__(self, other: Any) -> Any:  # type: ignore[override]
+        return _NoTruth()
+
+    __hash__ = None  # type: ignore[assignment]
+
+    def __repr__(self) -> str:
+        return f"<Ambiguous:{self.tag}>"
 
 
 GENERATION = [0]  # "version of the program": bumped by a check to model an upgrade between two process lifetimes
